@@ -189,7 +189,7 @@ impl StateMachine {
             // Process the message.
             let now = ctx.now();
             #[cfg(era_consensus_verif)]
-            let verif_msg = (req.msg.msg.label(), req.msg.msg.view_number().0);
+            let verif_msg = crate::verif::observed().then(|| req.msg.clone());
 
             // Unwrap the v2 message from the others.
             #[allow(irrefutable_let_patterns)]
@@ -369,7 +369,9 @@ impl StateMachine {
             };
             metrics::METRICS.message_processing_latency[&label].observe_latency(ctx.now() - now);
             #[cfg(era_consensus_verif)]
-            crate::verif::emit_handled(&self, verif_msg.0, verif_msg.1);
+            if let Some(m) = verif_msg {
+                crate::verif::emit_handled(&self, m);
+            }
 
             // Notify network component that the message has been processed.
             // Ignore sending error.
